@@ -20,3 +20,4 @@ print('failing verdicts:',dict(sorted(c.items())))
 PY
 echo "model mismatches: $(grep -c '^(mismatch' $R/model.out)  corr0: $(grep -c '^(corr "[^"]*" 0 ' $R/eval.sexp)"
 cat $R/cases.sexp $R/eval.sexp > $R/all.sexp
+python3 /verif/home_hits.py $R $(basename $W | sed "s/mut_//" | cut -c1-3)
